@@ -163,6 +163,9 @@ class C12(PropBase):
             else:
                 target = ":".join(parts[:rng.randrange(1, len(parts))])
             amt = common.gen_amount_text(rng)
+            if rng.random() < 0.4:
+                # the declared leaf itself is posted to first (its parents must stay unpostable)
+                txns.append(simple_txn([post(leaf, common.gen_amount_text(rng))], {"acct": other, "comment": None}))
             if rng.random() < 0.5:
                 txns.append(simple_txn([post(target, amt)], {"acct": other, "comment": None}))
             else:
@@ -212,18 +215,27 @@ class C12(PropBase):
         elif kind == "price_comm":
             rc = rng.choice(comms)
             extra["report_commodity"] = rc
-            cs = sorted(set(cs) | {rc})
+            mode = rng.choice(["declared", "undecl_base", "undecl_eq", "mixed", "mixed"])
+            x = rng.choice(EXTRA_COMMS)
             ents = []
             for _ in range(rng.randrange(1, 4)):
-                b = rng.choice(comms + EXTRA_COMMS)
-                ents.append([b, rng.choice([rc, rc, rng.choice(comms + EXTRA_COMMS)]), rng.choice(["2", "0.5", "1.25"])])
-            if rng.random() < 0.08:
+                b = rng.choice(comms + ([] if mode in ("declared", "undecl_base", "undecl_eq") else EXTRA_COMMS))
+                q = rc if mode != "mixed" else rng.choice([rc, rc, rng.choice(comms + EXTRA_COMMS)])
+                ents.append([b, q, rng.choice(["2", "0.5", "1.25"])])
+            if mode == "undecl_base":
+                ents.insert(rng.randrange(len(ents) + 1), [x, rc, "3"])
+            elif mode == "undecl_eq":
+                ents.insert(rng.randrange(len(ents) + 1), [rng.choice(comms), x, "3"])
+            if rng.random() < 0.06:
                 ents = []                             # empty price file: an error in every mode
-            lookup = rng.choice(["last-price", "txn-time", "last-price", "none"])
+            lookup = rng.choice(["last-price", "txn-time", "last-price", "last-price", "none"])
             extra["price"] = {"entries": ents, "db": price_text(ents), "lookup": lookup}
-            if rng.random() < 0.5:
+            cs = sorted(set(cs) | {rc})
+            if mode == "mixed" and rng.random() < 0.5:
                 cs = sorted(set(cs) | {e[0] for e in ents} | {e[1] for e in ents})
-            if rng.random() < 0.1:
+            elif mode != "mixed":
+                cs = sorted((set(cs) | {e[0] for e in ents} | {e[1] for e in ents}) - {x})
+            if rng.random() < 0.08:
                 del extra["report_commodity"]         # conversion without report commodity: error in every mode
         elif kind == "dup_decl":
             accts = accts + accts[:2] + accts[-1:]
